@@ -363,6 +363,9 @@ def rule_R4(chk, repo, eng):
                     if isinstance(x, ast.BinOp) and isinstance(x.op, ast.Add) and isinstance(x.left, ast.Call) and \
                             norm(x.left.func) == 'max' and isinstance(x.right, ast.Constant) and x.right.value == 1:
                         maxes.append(x)
+                    if isinstance(x, ast.BinOp) and isinstance(x.op, ast.Add) and isinstance(x.right, ast.Call) and \
+                            norm(x.right.func) == 'max' and isinstance(x.left, ast.Constant) and x.left.value == 1:
+                        maxes.append(x)         # 1 + max(...)
                     if isinstance(x, ast.Name) and x.id not in done:
                         done.add(x.id)
                         todo += defs.get(x.id, [])
